@@ -571,6 +571,11 @@ class Engine:
             bb = bsz * bps
             hi = _served_now()
             lo = res.get("served_at_intr")
+            if pipe is not None and getattr(pipe, "_fd_priv", None) is not None:
+                # the program reads through the descriptor: what has been
+                # pulled from it (a BufferedReader of its own reads ahead)
+                # says nothing about what the detector has read
+                lo = None
             hi_b = len(visible) if hi is None else min(hi, len(visible))
             lo_b = 0 if lo is None else min(lo, len(visible))
             ks = range(lo_b // bb, -(-hi_b // bb) + 1)
